@@ -104,15 +104,36 @@ class Ctx:
         src = VERIF / "coq"
         # cp -a keeps mtimes, so .vo files built by setup stay "up to date" for make
         sh(["cp", "-a", str(src), str(self.coq)])
-        (self.coq / "gen").mkdir(exist_ok=True)
+        gen = self.coq / "gen"
+        gen.mkdir(exist_ok=True)
+        # The generated files that setup left describe the tree AS IT WAS THEN.  They are set aside (with their compiled files): a
+        # theory can only import a generated file that THIS run regenerated from the tree under test (write_gen); a check that forgets
+        # to regenerate one it depends on fails to build instead of silently proving things about an old tree.
+        aside = self.coq / "gen_setup"
+        aside.mkdir(exist_ok=True)
+        for f in list(gen.iterdir()):
+            if f.is_file():
+                f.rename(aside / f.name)
         self._coq_ready = True
 
     def write_gen(self, name: str, text: str):
-        """Write a translator output. An identical file left by setup keeps its mtime
-        (same text, same .vo), anything else is rewritten and therefore rebuilt."""
+        """Write a translator output.  If setup generated the identical text, its file comes back with its mtime and its compiled
+        files (same text, same .vo: nothing to rebuild); anything else is written anew and therefore rebuilt."""
         self.prepare_coq()
-        p = self.coq / "gen" / name
-        if p.exists() and p.read_text() == text:
+        gen = self.coq / "gen"
+        p = gen / name
+        if p.exists():
+            if p.read_text() == text:
+                return p
+            p.write_text(text)
+            return p
+        aside = self.coq / "gen_setup"
+        old = aside / name
+        stem = name[:-2] if name.endswith(".v") else name
+        if old.exists() and old.read_text() == text:
+            for f in list(aside.iterdir()):
+                if f.name == name or f.name.startswith(stem + ".") or f.name == "." + stem + ".aux":
+                    f.rename(gen / f.name)
             return p
         p.write_text(text)
         return p
